@@ -473,7 +473,11 @@ func builtinLoadString(env *LEnv, args *LVal) *LVal {
 	// stack but the stack frame TROBlock will prevent tail recursion
 	// optimization from unwinding the stack to/beyond this point.
 	env.Runtime.Stack.Top().TROBlock = true
-	v := env.root().LoadString(_name, source.Str)
+	// The nested load runs in the root environment but under the context of
+	// the evaluation that reached this builtin (bridged onto env by call()):
+	// the root environment's own context is the host's, not the caller's, so
+	// going through it made the nested evaluation uncancellable.
+	v := env.root().LoadStringContext(env.evalCtx, _name, source.Str)
 	if v.Type == LError && v.CallStack() == nil {
 		v.SetCallStack(env.Runtime.Stack.Copy())
 	}
@@ -501,7 +505,7 @@ func builtinLoadBytes(env *LEnv, args *LVal) *LVal {
 	// stack but the stack frame TROBlock will prevent tail recursion
 	// optimization from unwinding the stack to/beyond this point.
 	env.Runtime.Stack.Top().TROBlock = true
-	v := env.root().Load(_name, bytes.NewReader(source.Bytes()))
+	v := env.root().LoadContext(env.evalCtx, _name, bytes.NewReader(source.Bytes())) // see builtinLoadString
 	if v.Type == LError && v.CallStack() == nil {
 		v.SetCallStack(env.Runtime.Stack.Copy())
 	}
@@ -519,7 +523,7 @@ func builtinLoadFile(env *LEnv, args *LVal) *LVal {
 	// stack but the stack frame TROBlock will prevent tail recursion
 	// optimization from unwinding the stack to/beyond this point.
 	env.Runtime.Stack.Top().TROBlock = true
-	v := env.root().LoadFile(loc.Str)
+	v := env.root().LoadFileContext(env.evalCtx, loc.Str) // see builtinLoadString
 	if v.Type == LError && v.CallStack() == nil {
 		v.SetCallStack(env.Runtime.Stack.Copy())
 	}
